@@ -177,7 +177,7 @@ impl LineParser {
 
 /// Parse a line of output for whether it contains an exit code of
 /// the form `[<numeric code>]` and return the numeric value if it does
-pub(super) fn extract_exit_code(line: &str) -> Option<i32> {
+pub(crate) fn extract_exit_code(line: &str) -> Option<i32> {
     // map. and then? map! and then?? map!!1!1!!!1 and ... then? ERRRR
     EXIT_CODE_EXPRESSION
         .captures(line)
